@@ -125,7 +125,7 @@ def rule_real_exponent(ctx):
 # ------------------------------------------------------------------- A10.order
 
 ORDER_EXPOSING = ('__iter__', 'components', 'index', 'sort', 'reverse', '__getitem__')
-_ORDER_FREE = ('sorted', 'len', 'max', 'min', 'set', 'frozenset', 'dict', 'sum', 'all', 'any')
+_ORDER_FREE = ('sorted', 'len', 'max', 'min', 'set', 'frozenset', 'sum', 'all', 'any')
 
 
 def rule_position_order(ctx):
@@ -145,18 +145,26 @@ def rule_position_order(ctx):
                 src = x
             elif isinstance(x, (ast.For, ast.comprehension)) and norm(x.iter) == 'self._componentValues':
                 src = x.iter
-            elif isinstance(x, ast.Call) and isinstance(x.func, ast.Name) and x.func.id in ('list', 'tuple', 'iter', 'enumerate', 'zip') \
+            elif isinstance(x, ast.Call) and isinstance(x.func, ast.Name) and x.func.id in ('list', 'tuple', 'iter', 'enumerate', 'zip', 'sorted', 'reversed') \
                     and any(norm(a) == 'self._componentValues' for a in x.args):
                 src = x
             if src is None:
                 continue
             n += 1
-            ordered = False
+            ordered = isinstance(src, ast.Call) and isinstance(src.func, ast.Name) and src.func.id == 'sorted' and \
+                not any(k.arg == 'key' for k in src.keywords)
             for a in ancestors(src):
                 if a is m.node:
                     break
                 if isinstance(a, ast.Call) and isinstance(a.func, ast.Name) and a.func.id in _ORDER_FREE:
+                    # sorted(..., key=k) is stable: ties keep the order of its input
+                    if a.func.id == 'sorted' and any(k.arg == 'key' for k in a.keywords):
+                        continue
                     ordered = True
+                    break
+                if isinstance(a, ast.Call) and isinstance(a.func, ast.Name) and a.func.id == 'dict' and a.args and a.args[0] is src \
+                        and isinstance(src, ast.Call) and src.func.attr == 'items':
+                    ordered = True      # a plain copy
                     break
             ctx.ob('A10.order', m, 'walks the position-keyed store in key order: `%s`' % norm(src)[:50], ordered,
                    '`%s` is taken in insertion order: after positions are assigned out of order (s[2]=c; s[1]=b; s[0]=a) this '
